@@ -51,82 +51,74 @@ structure Msg where
   additionals : List ERecord
   deriving Repr, Inhabited
 
-structure St where
-  body : Bytes
-  names : List (WName × Nat)
-  allowLong : Bool
-  deriving Repr, Inhabited
-
-def St.size (st : St) : Nat := Gen.dnsPacketHeaderLen + st.body.length
-def St.fresh : St := ⟨[], [], true⟩
+/-- the names table of one packet: suffix ↦ absolute offset of its first length byte -/
+abbrev Names := List (WName × Nat)
 
 /-- `self.names.get(name, 0)`: a stored 0 is indistinguishable from absence -/
-def lookupName (names : List (WName × Nat)) (n : WName) : Option Nat :=
+def lookupName (names : Names) (n : WName) : Option Nat :=
   match names.find? (fun p => p.1 = n) with
   | some p => if p.2 = 0 then none else some p.2
   | none => none
 
-def St.append (st : St) (b : Bytes) : St := { st with body := st.body ++ b }
+/-! The writers below are functions of the current absolute `size` and the names table, returning the
+bytes they append (the library appends chunks to `self.data` and bumps `self.size`); nothing they do
+depends on the bytes already written. -/
 
 /-- `_write_byte`: `BYTE_TABLE[value]` -/
-def writeByte (st : St) (v : Nat) : Except PyExc St :=
-  if v < 256 then .ok (st.append [v.toUInt8]) else .error .indexError
+def byteOf (v : Nat) : Except PyExc Bytes :=
+  if v < 256 then .ok [v.toUInt8] else .error .indexError
 
 /-- `write_short` -/
-def writeShort (st : St) (v : Nat) : Except PyExc St :=
-  if v < 65536 then .ok (st.append (be16 v)) else .error .structError
+def shortOf (v : Nat) : Except PyExc Bytes :=
+  if v < 65536 then .ok (be16 v) else .error .structError
 
 /-- `_write_int` -/
-def writeInt (st : St) (v : Nat) : Except PyExc St :=
-  if v < 4294967296 then .ok (st.append (be32 v)) else .error .structError
+def intOf (v : Nat) : Except PyExc Bytes :=
+  if v < 4294967296 then .ok (be32 v) else .error .structError
 
 /-- `_write_utf` on an already UTF-8-encoded label -/
-def writeUtf (st : St) (l : Label) : Except PyExc St :=
+def utfOf (l : Label) : Except PyExc Bytes :=
   if Gen.Outgoing.label_too_long l.length then .error .namePartTooLong
   else do
-    let st ← writeByte st l.length
-    pure (st.append l)
+    let b ← byteOf l.length
+    pure (b ++ l)
 
 /-- `write_character_string` -/
-def writeCharString (st : St) (s : Bytes) : Except PyExc St :=
+def charStringOf (s : Bytes) : Except PyExc Bytes :=
   if Gen.Outgoing.charstring_too_long s.length then .error .namePartTooLong
   else do
-    let st ← writeByte st s.length
-    pure (st.append s)
+    let b ← byteOf s.length
+    pure (b ++ s)
 
 /-- `_write_link_to_name` -/
-def writeLink (st : St) (idx : Nat) : Except PyExc St := do
-  let st ← writeByte st (Gen.Outgoing.link_hi idx)
-  writeByte st (Gen.Outgoing.link_lo idx)
+def linkOf (idx : Nat) : Except PyExc Bytes := do
+  let a ← byteOf (Gen.Outgoing.link_hi idx)
+  let b ← byteOf (Gen.Outgoing.link_lo idx)
+  pure (a ++ b)
 
 /-- `write_name`, on the label list `name.rstrip-one-dot.split('.')`.  Each suffix is looked up;
 the first one found is replaced by a pointer, the others are registered at the offset of their
 length byte and written out. -/
-def writeName : St → WName → Except PyExc St
-  | st, [] => writeByte st 0
-  | st, l :: rest =>
-    match lookupName st.names (l :: rest) with
-    | some idx => writeLink st idx
+def writeName (size : Nat) (names : Names) : WName → Except PyExc (Bytes × Names)
+  | [] => do let b ← byteOf 0; pure (b, names)
+  | l :: rest =>
+    match lookupName names (l :: rest) with
+    | some idx => do let b ← linkOf idx; pure (b, names)
     | none => do
-      let st1 ← writeUtf { st with names := (l :: rest, st.size) :: st.names } l
-      writeName st1 rest
+      let lb ← utfOf l
+      let (rb, names') ← writeName (size + lb.length) ((l :: rest, size) :: names) rest
+      pure (lb ++ rb, names')
 
 /-- `_write_record_class` -/
 def classField (class_ : Nat) (unique multicast : Bool) : Nat :=
   if Gen.Outgoing.class_has_unique_bit unique multicast then Gen.Outgoing.class_with_unique class_ else class_
 
-/-- `_check_data_limit_or_rollback`: `(state, fitted)` -/
-def checkLimit (before st : St) : St × Bool :=
-  let limit := Gen.Outgoing.len_limit st.allowLong
-  if Gen.Outgoing.fits st.size limit then ({ st with allowLong := false }, true)
-  else ({ body := before.body, names := st.names.filter (fun p => !Gen.Outgoing.rollback_drops p.2 before.size), allowLong := false }, false)
-
-/-- `_write_question` -/
-def writeQuestion (multicast : Bool) (st : St) (q : EQuestion) : Except PyExc (St × Bool) := do
-  let s ← writeName st q.name
-  let s ← writeShort s q.qtype
-  let s ← writeShort s (classField q.qclass q.unique multicast)
-  pure (checkLimit st s)
+/-- a question: name, type, class -/
+def encQuestion (multicast : Bool) (size : Nat) (names : Names) (q : EQuestion) : Except PyExc (Bytes × Names) := do
+  let (nb, names') ← writeName size names q.name
+  let t ← shortOf q.qtype
+  let c ← shortOf (classField q.qclass q.unique multicast)
+  pure (nb ++ t ++ c, names')
 
 /-- NSEC bitmap of `DNSNsec.write`: 32 bytes, one bit per rdtype, cut after the last type's byte -/
 def nsecBitmap (types : List Nat) : Except PyExc Bytes :=
@@ -142,44 +134,71 @@ def nsecBitmap (types : List Nat) : Except PyExc Bytes :=
     if total = 0 then .error .valueError
     else .ok ((bm.take total).map Nat.toUInt8)
 
-/-- `record.write(out)` -/
-def writeRData (st : St) : ERData → Except PyExc St
-  | .addr a => pure (st.append a)
-  | .ptr t => writeName st t
-  | .txt t => pure (st.append t)
+/-- `record.write(out)` at absolute offset `size` -/
+def encRData (size : Nat) (names : Names) : ERData → Except PyExc (Bytes × Names)
+  | .addr a => pure (a, names)
+  | .ptr t => writeName size names t
+  | .txt t => pure (t, names)
   | .srv p w q t => do
-    let s ← writeShort st p
-    let s ← writeShort s w
-    let s ← writeShort s q
-    writeName s t
+    let pb ← shortOf p
+    let wb ← shortOf w
+    let qb ← shortOf q
+    let (nb, names') ← writeName (size + 6) names t
+    pure (pb ++ wb ++ qb ++ nb, names')
   | .hinfo c o => do
-    let s ← writeCharString st c
-    writeCharString s o
+    let cb ← charStringOf c
+    let ob ← charStringOf o
+    pure (cb ++ ob, names)
   | .nsec n ts => do
     let bm ← nsecBitmap ts
-    let s ← writeName st n
-    let s ← writeByte s 0
-    let s ← writeByte s bm.length
-    pure (s.append bm)
+    let (nb, names') ← writeName size names n
+    let z ← byteOf 0
+    let lb ← byteOf bm.length
+    pure (nb ++ z ++ lb ++ bm, names')
 
 /-- the TTL field: `record.ttl if now == 0 else record.get_remaining_ttl(now)`, then `int()` -/
 def ttlField (r : ERecord) (now : Ms) : Int :=
   Gen.Outgoing.ttl_field r.ttl now (Gen.Dns.get_remaining_ttl r.created r.ttl now)
 
-/-- `_write_record`: a two-byte placeholder is written, then the rdata, then the placeholder is
-replaced by the number of bytes written after it -/
-def writeRecord (multicast : Bool) (st : St) (r : ERecord) (now : Ms) : Except PyExc (St × Bool) := do
-  let s ← writeName st r.name
-  let s ← writeShort s r.rtype
-  let s ← writeShort s (classField r.rclass r.unique multicast)
+/-- `_write_record` minus the limit check: name, type, class, ttl, rdlength, rdata.  The library
+writes a two-byte placeholder and patches it with the number of bytes written after it. -/
+def encRecord (multicast : Bool) (size : Nat) (names : Names) (r : ERecord) (now : Ms) : Except PyExc (Bytes × Names) := do
+  let (nb, names1) ← writeName size names r.name
+  let t ← shortOf r.rtype
+  let c ← shortOf (classField r.rclass r.unique multicast)
   let ttl := ttlField r now
-  let s ← (if ttl < 0 then .error .structError else writeInt s ttl.toNat)
-  let s2 := s.append [0, 0]
-  let s3 ← writeRData s2 r.rdata
-  let rdlen := s3.body.length - s2.body.length
-  if rdlen < 65536 then
-    pure (checkLimit st { s3 with body := s.body ++ be16 rdlen ++ s3.body.drop s2.body.length })
-  else .error .structError
+  let tb ← (if ttl < 0 then .error .structError else intOf ttl.toNat)
+  let (rd, names2) ← encRData (size + nb.length + 10) names1 r.rdata
+  let lb ← shortOf rd.length
+  pure (nb ++ t ++ c ++ tb ++ lb ++ rd, names2)
+
+/-- per-packet state (`data`, `names`, `allow_long`); `size = 12 + len(data)` -/
+structure St where
+  body : Bytes
+  names : Names
+  allowLong : Bool
+  deriving Repr, Inhabited
+
+def St.size (st : St) : Nat := Gen.dnsPacketHeaderLen + st.body.length
+def St.fresh : St := ⟨[], [], true⟩
+
+/-- `_check_data_limit_or_rollback` applied to the bytes an entry wants to append -/
+def commit (st : St) (bytes : Bytes) (names' : Names) : St × Bool :=
+  let limit := Gen.Outgoing.len_limit st.allowLong
+  if Gen.Outgoing.fits (st.size + bytes.length) limit then
+    ({ body := st.body ++ bytes, names := names', allowLong := false }, true)
+  else
+    ({ body := st.body, names := names'.filter (fun p => !Gen.Outgoing.rollback_drops p.2 st.size), allowLong := false }, false)
+
+/-- `_write_question` -/
+def writeQuestion (multicast : Bool) (st : St) (q : EQuestion) : Except PyExc (St × Bool) := do
+  let (b, names') ← encQuestion multicast st.size st.names q
+  pure (commit st b names')
+
+/-- `_write_record` -/
+def writeRecord (multicast : Bool) (st : St) (r : ERecord) (now : Ms) : Except PyExc (St × Bool) := do
+  let (b, names') ← encRecord multicast st.size st.names r now
+  pure (commit st b names')
 
 /-- `_write_questions_from_offset`: stop at the first entry that does not fit -/
 def writeQuestions (multicast : Bool) : St → List EQuestion → Except PyExc (St × Nat)
